@@ -262,7 +262,21 @@ pub fn c02(ctx: &CheckCtx) -> CheckResult {
         max_programs: if ctx.tier.is_thorough() { usize::MAX } else { 700 },
         ..Mode::default()
     };
-    let items: Vec<(&str, &str, Mode)> = ALL_FAMILIES.iter().map(|f| (*f, set, mode.clone())).collect();
+    let mut items: Vec<(&str, &str, Mode)> = ALL_FAMILIES.iter().map(|f| (*f, set, mode.clone())).collect();
+    // park / unpark with every other party blocked (no spurious wake-up can mask a lost order)
+    items.push(("sync", "gated", Mode { max_programs: usize::MAX, ..mode.clone() }));
+    // every entry point of the atomics (also judged by C04)
+    items.push(("atomic", "rmw", Mode { max_programs: usize::MAX, ..mode.clone() }));
+    if !ctx.tier.is_thorough() {
+        // beyond the simplest 700: every k-th program of the rest of each family's set, judged when
+        // its tree is fully explored within the execution cap
+        for f in ALL_FAMILIES {
+            let n = family(f).len(set);
+            if n > 700 {
+                items.push((f, set, Mode { max_programs: usize::MAX, stride: ((n - 700) / 120).max(1), skip_first: 700, max_execs: 20_000, ..mode.clone() }));
+            }
+        }
+    }
     run_e2(ctx, &mut res, &items, &[VKind::Missing, VKind::Abort], if ctx.tier.is_thorough() { 1500.0 } else { 50.0 });
     res.cov("rule", format!("{}; C02 oracle: outcome set of the strict model (BFS over all interleavings of visible operations) must be contained in the set of outcomes over all schedules; evaluated only on fully explored trees; quick tier = the first 700 programs (simplest first) of every family", e2_rule()));
     res.assumptions.push("the reference model interleaves at operation granularity and knows nothing about where Shuttle places scheduling points".into());
